@@ -15,6 +15,7 @@ Two families of shapes:
 """
 from __future__ import annotations
 
+import copy
 import itertools
 import json
 import os
@@ -152,9 +153,13 @@ def _token(v):
 
 def _option(shape, k, v):
     """Command-line tokens of one argument.  Arguments declared with nargs take their items as separate tokens,
-    append actions one occurrence per item (shape["argv_style"]); everything else is --key=<text or JSON>."""
+    append actions one occurrence per item, yes/no flags no value at all (shape["argv_style"]); everything else is
+    --key=<text or JSON>."""
     style = shape.get("argv_style", {}).get(k)
     j = to_json(v)
+    if style == "flag" and isinstance(j, bool):
+        head, _, leaf = k.rpartition(".")
+        return [f"--{k}"] if j else [f"--{head + '.' if head else ''}no_{leaf}"]
     if style and isinstance(j, list):
         toks = [x if isinstance(x, str) else json.dumps(x) for x in j]
         if style == "nargs":
@@ -417,7 +422,7 @@ def _subcommands(scratch):
 def _paths(scratch):
     from typing import List, Optional
 
-    from jsonargparse import ActionConfigFile
+    from jsonargparse import ActionConfigFile, ActionJsonSchema
     from jsonargparse.typing import Path_fr
 
     os.makedirs(os.path.join(scratch, "conf", "sub"), exist_ok=True)
@@ -430,12 +435,21 @@ def _paths(scratch):
         f.write(json.dumps([["1", 2], [3]]))
     with open(os.path.join(scratch, "conf", "sub", "badnums.json"), "w") as f:
         f.write(json.dumps([["1", 2], ["zz"]]))
+    with open(os.path.join(scratch, "conf", "sub", "obj.json"), "w") as f:
+        f.write(json.dumps({"tags": [1, 2]}))
+    with open(os.path.join(scratch, "conf", "sub", "badobj.json"), "w") as f:
+        f.write(json.dumps({"tags": [1, "zz"]}))
+    object_schema = copy.deepcopy(OBJECT_SCHEMA)
     p = _parser()
     p.add_argument("--cfg", action=ActionConfigFile)
     p.add_argument("--p", type=Optional[Path_fr], default=None)
     p.add_argument("--pl", type=List[Path_fr], default=[])
     p.add_argument("--n", type=List[int], default=[0])
     p.add_argument("--nf", type=List[List[int]], enable_path=True, default=[])
+    # a schema-validated value read from a file keeps the file it came from (__path__ inside the value; save with
+    # multifile=True writes it back to a file of its own)
+    p.add_argument("--js", action=ActionJsonSchema(schema=object_schema), default={"tags": [0]})
+    DECLARATIONS[id(p)] = (p, [("js:schema", object_schema)])
     return p
 
 
@@ -501,6 +515,16 @@ def _links(scratch):
     return p
 
 
+# Further objects in which the user declared defaults, per parser built by a shape: id(parser) -> (parser, [(label,
+# object)]).  (Filled by the make functions; the parser is kept in the entry so that the id cannot be recycled; the
+# harness drops the entry at the end of the case.)
+DECLARATIONS = {}
+
+
+def declarations(parser):
+    return DECLARATIONS.get(id(parser), (None, []))[1]
+
+
 # Schemas of the ActionJsonSchema arguments: validation fills in the schema defaults ("weight", "tags", "lvl"), so
 # a value without them is a value that still needs adaptation.
 ARRAY_SCHEMA = {
@@ -562,6 +586,7 @@ def _actions(scratch, dform):
     from mc.fixtures.c08.lib import hexint
 
     d = build(ACTION_DEFAULTS[dform], "dict")
+    array_schema, object_schema = copy.deepcopy(ARRAY_SCHEMA), copy.deepcopy(OBJECT_SCHEMA)  # fresh per parser
     inner = _parser()
     inner.add_argument("--xs", nargs="+", type=hexint, default=d["inner.xs"])
     inner.add_argument("--ys", type=List[int], default=d["inner.ys"])
@@ -572,11 +597,14 @@ def _actions(scratch, dform):
     p.add_argument("--two", nargs=2, type=hexint, default=d["two"])
     p.add_argument("--opt", nargs="?", type=hexint, const="5", default=d["opt"])
     p.add_argument("--acc", action="append", default=d["acc"])
-    p.add_argument("--arr", action=ActionJsonSchema(schema=ARRAY_SCHEMA), default=d["arr"])
-    p.add_argument("--obj", action=ActionJsonSchema(schema=OBJECT_SCHEMA), default=d["obj"])
+    p.add_argument("--arr", action=ActionJsonSchema(schema=array_schema), default=d["arr"])
+    p.add_argument("--obj", action=ActionJsonSchema(schema=object_schema), default=d["obj"])
     p.add_argument("--jn", action=ActionJsonnet(), default=d["jn"])
     p.add_argument("--inner", action=ActionParser(parser=inner))
     p.add_argument("--yn", action=ActionYesNo, default=False)
+    # the schemas are declarations of the user as well (they carry the "default" keywords that validation fills in):
+    # the harness watches them together with the declared defaults
+    DECLARATIONS[id(p)] = (p, [("arr:schema", array_schema), ("obj:schema", object_schema)])
     return p
 
 
@@ -589,7 +617,7 @@ def _actions_final(scratch):
 
 
 _ACTION_CONFIGS = [
-    # every argument given, everything still to be converted / completed
+    # every argument (but the jsonnet one) given, everything still to be converted / completed
     {
         "plus": ["a", "b"],
         "star": ["c", "d"],
@@ -598,22 +626,23 @@ _ACTION_CONFIGS = [
         "acc": ["x", "y"],
         "arr": [{"name": "q"}, {"name": "r", "tags": [2, 3]}],
         "obj": {"tags": [2, 3]},
-        "jn": {"a": [1, {"b": [2]}]},
         "inner": {"__ns__": {"xs": ["d", "e"], "ys": ["3", 4]}},
         "yn": True,
     },
-    # final form: nothing needs conversion
+    # final form: nothing needs conversion  (the jsonnet argument is given here only: every evaluation of a jsonnet
+    # text costs 40 ms, and each invalid-position variant of a configuration evaluates it in eight text-based calls)
     {
         "plus": [10, 11],
         "two": [1, 2],
         "arr": [{"name": "q", "weight": 7, "tags": [1]}],
         "obj": {"tags": [2], "lvl": 3},
+        "jn": {"a": [1, {"b": [2]}]},
         "inner": {"__ns__": {"xs": [13, 14], "ys": [3]}},
     },
     # nothing given: the declared defaults themselves travel through the whole call
     {},
 ]
-_ACTION_ARGV = {"plus": "nargs", "star": "nargs", "two": "nargs", "inner.xs": "nargs", "acc": "repeat"}
+_ACTION_ARGV = {"plus": "nargs", "star": "nargs", "two": "nargs", "inner.xs": "nargs", "acc": "repeat", "yn": "flag"}
 
 
 def _cp(cls, **init):
@@ -705,6 +734,8 @@ NAMED = {
             {"cfg": "inner.json", "n": [2]},
             {"nf": "sub/nums.json"},
             {"nf": "sub/badnums.json", "n": ["1"]},
+            {"js": "sub/obj.json", "n": ["1"]},
+            {"js": "sub/badobj.json"},
         ],
     },
     "env": {
